@@ -60,17 +60,17 @@ fn block_mix_case<const LEN: usize>() {
     }
     kani::cover!(true);
 }
-// @harness props=C10 kind=bounded bound=r=1 tier=quick timeout=400
+// @harness props=C10 kind=bounded bound=r=1 tier=quick timeout=500
 #[kani::proof]
 #[kani::stub(salsa20_8, tag_core)]
 #[kani::unwind(66)]
 fn scrypt_block_mix_r1() { block_mix_case::<128>() }
-// @harness props=C10 kind=bounded bound=r=2 tier=quick timeout=400
+// @harness props=C10 kind=bounded bound=r=2 tier=thorough timeout=900
 #[kani::proof]
 #[kani::stub(salsa20_8, tag_core)]
 #[kani::unwind(66)]
 fn scrypt_block_mix_r2() { block_mix_case::<256>() }
-// @harness props=C10 kind=bounded bound=r=3 tier=quick timeout=400
+// @harness props=C10 kind=bounded bound=r=3 tier=quick timeout=900
 #[kani::proof]
 #[kani::stub(salsa20_8, tag_core)]
 #[kani::unwind(66)]
@@ -114,12 +114,12 @@ fn ro_mix_case<const N: usize>() {
     }
     kani::cover!(true);
 }
-// @harness props=C10 kind=bounded bound=N=2,r=1 tier=quick timeout=400
+// @harness props=C10 kind=bounded bound=N=2,r=1 tier=thorough timeout=2400
 #[kani::proof]
 #[kani::stub(salsa20_8, tag_core)]
 #[kani::unwind(130)]
 fn scrypt_ro_mix_n2() { ro_mix_case::<2>() }
-// @harness props=C10 kind=bounded bound=N=4,r=1 tier=thorough timeout=1800
+// @harness props=C10 kind=bounded bound=N=4,r=1 tier=thorough timeout=3600
 #[kani::proof]
 #[kani::stub(salsa20_8, tag_core)]
 #[kani::unwind(130)]
